@@ -201,7 +201,7 @@ def run(ctx):
 	for n in range(0, 8):
 		sub({'kind': 'foreign', 'what': 'short', 'n': n}, 'foreign')
 	ks = list(range(1, 33))
-	for j in range(ctx.q(250, 5000)):
+	for j in range(ctx.q(700, 5000)):
 		if not ctx.time_left(0.92):
 			break
 		k = ks[j % 32] if j < 64 else rng.randint(1, 32)
